@@ -260,7 +260,10 @@ class Pipeline(object):
     def _run_producer_wrapper(self):
         '''Run the producer, if exception, stop engine.'''
         try:
-            yield from self._producer.process()
+            if self._state == PipelineState.running:
+                # stop() may have been called before this task's first step;
+                # Producer.process() would forget that stop request.
+                yield from self._producer.process()
         except Exception as error:
             if not isinstance(error, StopIteration):
                 # Stop the workers so the producer exception will be handled
